@@ -12,6 +12,7 @@ pub fn take_log() -> String { LOG.with(|l| l.borrow_mut().drain(..).collect::<Ve
 /// call-recording field type: clone adds 100 to the id, clone_from stores source id + 1000
 #[derive(Debug, PartialEq)]
 pub struct Rc_(pub u32);
+impl Copy for Rc_ {}
 impl Clone for Rc_ {
     fn clone(&self) -> Rc_ { LOG.with(|l| l.borrow_mut().push(format!("clone:{}", self.0))); Rc_(self.0 + 100) }
     fn clone_from(&mut self, s: &Rc_) { LOG.with(|l| l.borrow_mut().push(format!("clone_from:{}<-{}", self.0, s.0))); self.0 = s.0 + 1000; }
@@ -54,7 +55,7 @@ class C07(Prop):
     pid = 'C07'
     tag = 'body of the Clone impl'
     rule = ('EXHAUSTIVE over a shape list: unit/tuple/named structs with 0-4 fields, enums with 0-4 variants mixing kinds, '
-            'both entry points; every field is a call-recording type whose clone and clone_from have distinguishable '
+            'both entry points, Clone alone and together with a derived Copy (either order); every field is a call-recording (Copy) type whose clone and clone_from have distinguishable '
             'effects; clone on every value, clone_from on all ordered pairs of values incl. every pair of distinct variants; '
             'expected values and call traces computed from the property statement; non-trivial = at least one field')
 
@@ -63,17 +64,18 @@ class C07(Prop):
 
     def cases(self, tier, rng):
         out = []
-        for (is_enum, vs), mode in itertools.product(shapes(), ('attr', 'derive')):
+        for (is_enum, vs), mode, tnames in itertools.product(shapes(), ('attr', 'derive'),
+                                                             (['Clone'], ['Copy', 'Clone'], ['Clone', 'Copy'])):
             if is_enum:
                 it = sx.enum('E', [sx.variant('V%d' % i, fields_s(k, n)) for i, (k, n) in enumerate(vs)])
                 kw = '(enum ('
             else:
                 it = sx.struct('X', fields_s(*vs[0]))
                 kw = '(struct ('
-            tl = [('Clone', None)]
+            tl = [(t, None) for t in tnames]
             req = sx.inv_attr(sx.dx(tl), it) if mode == 'attr' else sx.inv_derive(
                 kw + sx.a_derive_ex(sx.dx(tl)) + ' ' + it[len(kw):])
-            out.append((req, dict(features=('enum' if is_enum else 'struct', mode) + tuple('%s%d' % v for v in vs),
+            out.append((req, dict(features=('enum' if is_enum else 'struct', mode, '+'.join(tnames)) + tuple('%s%d' % v for v in vs),
                                   enum=is_enum, vs=vs, nontrivial=any(n for _, n in vs))))
         return out
 
